@@ -141,6 +141,9 @@ pub enum Op {
 pub struct StoreTrace {
     pub hash_seed: u64,
     pub max_checkpoints: usize,
+    /// Some(ms): the store is configured with enable_ttl and this default TTL (plain `put` then expires too)
+    #[serde(default)]
+    pub default_ttl: Option<u64>,
     pub ops: Vec<Op>,
     pub tick_pattern: Vec<u8>,
     /// Some(i): sweep every crash point (every shim call, every byte offset of the file) of the
@@ -455,10 +458,12 @@ fn check_against(seen: &Seen, snap: &Snap, clause: &str, site: &str, what: &str,
     Ok(())
 }
 
-fn new_store(dir: &PathBuf, max_checkpoints: usize) -> StateStore {
+fn new_store(dir: &PathBuf, max_checkpoints: usize, default_ttl: Option<u64>) -> StateStore {
     StateStore::with_config(StateConfig {
         backend: StateBackend::File { path: dir.clone() },
         max_checkpoints,
+        enable_ttl: default_ttl.is_some(),
+        default_ttl: Duration::from_millis(default_ttl.unwrap_or(3_600_000)),
         ..Default::default()
     })
 }
@@ -466,7 +471,7 @@ fn new_store(dir: &PathBuf, max_checkpoints: usize) -> StateStore {
 /// Probe with a separate store object on the same directory (no fault plan active).
 fn probe_restore(dir: &PathBuf, id: &str) -> Result<Seen, String> {
     disk_begin(None);
-    let mut p = new_store(dir, 1000);
+    let mut p = new_store(dir, 1000, None);
     let r = p.restore(id);
     let _ = disk_end();
     match r {
@@ -552,7 +557,7 @@ struct Exec<'a> {
 impl<'a> Exec<'a> {
     fn restart(&mut self, obs: &mut Obs) {
         self.store = None;
-        self.store = Some(new_store(&self.dir, self.t.max_checkpoints));
+        self.store = Some(new_store(&self.dir, self.t.max_checkpoints, self.t.default_ttl));
         self.m.live.clear();
         self.m.incarnation.clear();
         self.m.restarts += 1;
@@ -636,14 +641,18 @@ impl<'a> Exec<'a> {
                     }
                     let now = clock::now_ms();
                     let (tmin, tmax) = (reads.iter().min().cloned().unwrap_or(now), reads.iter().max().cloned().unwrap_or(now));
-                    let (lo, hi) = match op {
-                        Op::PutTtl(_, _, ttl) => (Some(tmin + ttl), Some(tmax + ttl)),
-                        _ => (None, None),
-                    };
-                    let ttl = match op {
+                    let eff_ttl: Option<u64> = match op {
                         Op::PutTtl(_, _, ttl) => Some(*ttl),
-                        _ => None,
+                        _ => self.t.default_ttl,
                     };
+                    let (lo, hi) = match eff_ttl {
+                        Some(ttl) => (Some(tmin + ttl), Some(tmax + ttl)),
+                        None => (None, None),
+                    };
+                    let ttl = eff_ttl;
+                    if matches!(op, Op::Put(..)) && eff_ttl.is_some() {
+                        obs.count("probe.put_with_default_ttl");
+                    }
                     self.m.live.insert(key, Entry { value: v.to_value(), exp_lo: lo, exp_hi: hi, ttl, maybe_removed: false });
                 }
                 Op::Update(k, v) => {
@@ -811,6 +820,9 @@ impl<'a> Exec<'a> {
                 self.m.ckpts.push(Ckpt { id: id.clone(), snap, status: Status::Acked, evicted: false, evict_uncertain: false, op_index: step, incarnation: self.m.restarts });
                 self.m.incarnation.push(id.clone());
                 obs.count("probe.checkpoint_acked");
+                if id.rsplit('_').next().and_then(|x| x.parse::<u32>().ok()).map_or(false, |n| n >= 10 && id.matches('_').count() >= 2) {
+                    obs.count("probe.two_digit_id_suffix");
+                }
                 if self.m.incarnation.len() > self.t.max_checkpoints {
                     let old = self.m.incarnation.remove(0);
                     // still on disk (the removal met a fault)? then it may or may not restore
@@ -965,7 +977,7 @@ fn run_once(t: &StoreTrace, obs: &mut Obs, override_fault: Option<(usize, Fault)
     let mut ex = Exec {
         t,
         dir: dir.clone(),
-        store: Some(new_store(&dir, t.max_checkpoints)),
+        store: Some(new_store(&dir, t.max_checkpoints, t.default_ttl)),
         m: Model { live: BTreeMap::new(), ckpts: Vec::new(), incarnation: Vec::new(), restarts: 0 },
         record_at,
         record_now: false,
@@ -1077,6 +1089,8 @@ impl World for StoreWorld {
                 "probe.broken_checkpoint_restore_is_error",
                 "probe.broken_checkpoint_restored_completely",
                 "probe.crash_states_enumerated",
+                "probe.put_with_default_ttl",
+                "probe.two_digit_id_suffix",
             ],
             quick_runs: 250_000,
             thorough_runs: 2_000_000,
@@ -1140,11 +1154,30 @@ impl World for StoreWorld {
             }
         }
         ops.truncate(14);
-        let tick_pattern = if rng.chance(1, 5) { vec![0, *rng.pick(&[0u8, 1]), 1] } else { vec![] };
+        // one run in 16: a checkpoint storm under a frozen clock (ids with one- and two-digit suffixes,
+        // retention working all the time)
+        let storm = rng.chance(1, 16);
+        if storm {
+            ops.clear();
+            ops.push(Op::Put(0, Val::Int(1)));
+            for i in 0..13 {
+                if i % 4 == 3 {
+                    ops.push(Op::Put(rng.usize(3), Val::Int(i as i64)));
+                } else {
+                    ops.push(Op::Checkpoint(None));
+                }
+            }
+        }
+        let tick_pattern = if !storm && rng.chance(1, 5) { vec![0, *rng.pick(&[0u8, 1]), 1] } else { vec![] };
         let ck: Vec<usize> = ops.iter().enumerate().filter(|(_, o)| matches!(o, Op::Checkpoint(_))).map(|(i, _)| i).collect();
         let sweep = !ck.is_empty() && (tier == Tier::Thorough || rng.chance(1, 8));
         let sweep_op = if sweep { Some(*rng.pick(&ck)) } else { None };
-        StoreTrace { hash_seed, max_checkpoints, ops, tick_pattern, sweep_op }
+        let default_ttl = if !storm && rng.chance(1, 6) { Some(*rng.pick(&[1u64, 2, 5, 50])) } else { None };
+        let max_checkpoints = if storm { *rng.pick(&[2usize, 3, 10]) } else { max_checkpoints };
+        if storm {
+            return StoreTrace { hash_seed, max_checkpoints, default_ttl, ops, tick_pattern, sweep_op: None };
+        }
+        StoreTrace { hash_seed, max_checkpoints, default_ttl, ops, tick_pattern, sweep_op }
     }
 
     fn hash_seed(&self, t: &StoreTrace) -> u64 {
@@ -1294,6 +1327,9 @@ impl World for StoreWorld {
         }
         if t.max_checkpoints != 10 {
             out.push(StoreTrace { max_checkpoints: 10, ..t.clone() });
+        }
+        if t.default_ttl.is_some() {
+            out.push(StoreTrace { default_ttl: None, ..t.clone() });
         }
         if t.hash_seed != 1 {
             out.push(StoreTrace { hash_seed: 1, ..t.clone() });
